@@ -46,17 +46,26 @@ def orZero (r : ORes) : Res := r.getD []
 /-- Prune: drop explicit zero entries -/
 def prune (r : Res) : Res := r.filter (fun p => p.2 != 0)
 
+/-- the loop shared by Add/Sub/AddTo/SubFrom: clone `l`, then for every entry of `r`: out[k] = f(out[k], v) -/
+def zipFold (f : Int → Int → Int) (l r : Res) : Res :=
+  r.foldl (fun out p => out.set p.1 (f (out.getD p.1) p.2)) l
+
 /-- Add(left, right) -/
 def add (l r : ORes) : Res :=
   match r with
   | none => orZero l
-  | some r => r.foldl (fun out p => out.set p.1 (goAddVal (out.getD p.1) p.2)) (orZero l)
+  | some r => zipFold goAddVal (orZero l) r
 
 /-- Sub(left, right) -/
 def sub (l r : ORes) : Res :=
   match r with
   | none => orZero l
-  | some r => r.foldl (fun out p => out.set p.1 (goSubVal (out.getD p.1) p.2)) (orZero l)
+  | some r => zipFold goSubVal (orZero l) r
+
+/-- Add/Sub with exact integer arithmetic: what Add/Sub compute while no quantity saturates
+    (`YkProps/C18`: the calculators are exact inside the int64 range). Used by the L1/L2 models. -/
+def addX (l r : Res) : Res := zipFold (· + ·) l r
+def subX (l r : Res) : Res := zipFold (· - ·) l r
 
 /-- AddTo: receiver nil stays nil -/
 def addTo (l r : ORes) : ORes := match l with | none => none | some _ => some (add l r)
